@@ -23,3 +23,35 @@ Print Assumptions C03_unprotected_only_in_teardown.
 Theorem C03_retire_after_unlink_in_source : retire_discipline_ok = true.
 Proof. exact retire_discipline_ok_true. Qed.
 Print Assumptions C03_retire_after_unlink_in_source.
+
+(* The two disciplines are not only premises: over the list-bin protocol model (Model/BinProto.v,
+   tied to map.rs by the lock-step conformance replays of C01), for EVERY schedule, thread count
+   and program:
+   D1  a cell is unlinked (and hence retired) at most once, and once unlinked it is never
+       reachable from any bin again;
+   D2  whatever cell a call holds in its program counter - the cells it may dereference next -
+       was unlinked, if at all, strictly after the call was invoked, i.e. while the guard the
+       call runs under was already active. *)
+From Flurry Require Import Model.BinReclaim Proofs.BinReclaimProofs.
+
+Theorem C03_unlinked_once : forall khash nbins progs sched,
+  (0 < nbins)%nat ->
+  NoDup (map fst (unlink_log khash nbins (BinProto.init nbins progs) sched)).
+Proof. exact unlinked_once. Qed.
+Print Assumptions C03_unlinked_once.
+
+Theorem C03_unlinked_never_reachable_again : forall khash nbins progs sched1 sched2 a u,
+  (0 < nbins)%nat ->
+  In (a, u) (unlink_log khash nbins (BinProto.init nbins progs) sched1) ->
+  reachable nbins (BinProto.run khash nbins (BinProto.init nbins progs) (sched1 ++ sched2)) a = false.
+Proof. exact unlinked_never_reachable_again. Qed.
+Print Assumptions C03_unlinked_never_reachable_again.
+
+Theorem C03_held_cells_unlinked_after_invocation : forall khash nbins progs sched t a u,
+  (0 < nbins)%nat ->
+  let c := BinProto.run khash nbins (BinProto.init nbins progs) sched in
+  In a (held_cells (at_ (get_thr c t))) ->
+  In (a, u) (unlink_log khash nbins (BinProto.init nbins progs) sched) ->
+  (inv_at (get_thr c t) < u)%N.
+Proof. exact held_cells_unlinked_after_invocation. Qed.
+Print Assumptions C03_held_cells_unlinked_after_invocation.
